@@ -97,7 +97,7 @@ pub struct Echo {
     auxv: Vec<u8>,
     random_at: Option<[u8; 16]>,
     execfn_at: Option<Vec<u8>>,
-    clock: [i64; 6],
+    clock: [i64; 18],
     /// load base and the words found at the requested link-time addresses
     peek: Option<(u64, Vec<u64>)>,
 }
@@ -194,10 +194,10 @@ pub fn parse(out: &[u8]) -> Result<Echo, String> {
         e.peek = Some((base, w.chunks(8).map(|c| u64::from_le_bytes(c.try_into().unwrap())).collect()));
     }
     let t = take(&mut it, b'T')?;
-    if t.len() != 48 {
+    if t.len() != 144 {
         return Err(bad("T length"));
     }
-    for j in 0..6 {
+    for j in 0..18 {
         e.clock[j] = i64::from_le_bytes(t[j * 8..j * 8 + 8].try_into().unwrap());
     }
     take(&mut it, b'Z')?;
@@ -239,6 +239,8 @@ pub struct Env<'a> {
     pub probe_dir: String,
     /// the driver may change the probe's uid/gid
     pub root: bool,
+    /// the driver may give the probe a time namespace of its own
+    pub timens: bool,
     /// relocation tables of the six builds (read from the executables)
     pub relocs: [Option<elf::RelocInfo>; NB],
     /// the optional builds that exist
@@ -307,7 +309,8 @@ fn judge_lookup(api: &str, envp: &[Vec<u8>], key: &[u8], obs: &Look, is_str_api:
 }
 
 /// All deviations of one probe run from the model, most specific first; prefix-defect lookups last.
-fn judge(case_argv: &[Vec<u8>], envp: &[Vec<u8>], keys: &[Vec<u8>], path: &str, mode: &str, e: &Echo, scope: Scope, ids: (u32, u32), relocs: Option<&elf::RelocInfo>) -> Vec<Failure> {
+fn judge(case_argv: &[Vec<u8>], envp: &[Vec<u8>], keys: &[Vec<u8>], path: &str, mode: &str, e: &Echo, scope: Scope, ids: (u32, u32), relocs: Option<&elf::RelocInfo>, timens: Option<(u32, u32)>) -> Vec<Failure> {
+    let tns = timens.map(|(m, b)| format!(" (time namespace: monotonic +{m} s, boottime +{b} s)")).unwrap_or_default();
     let mut f: Vec<Failure> = Vec::new();
     if scope == Scope::All {
         let argc = case_argv.len() as u64;
@@ -458,15 +461,17 @@ fn judge(case_argv: &[Vec<u8>], envp: &[Vec<u8>], keys: &[Vec<u8>], path: &str, 
                 other => f.push(Failure::new(format!("probe-env|malformed output|{mode}"), format!("[{mode}] {} relocation slots requested, answer: {:?}", ri.relative.len(), other.as_ref().map(|p| p.1.len())))),
             }
         }
-        // clock: (sec, nsec) of syscall, now(), syscall
-        let t = |i: usize| (e.clock[2 * i], e.clock[2 * i + 1]);
-        let (t0, tn, t1) = (t(0), t(1), t(2));
-        if !(0..1_000_000_000).contains(&tn.1) {
-            f.push(Failure::new("MonotonicInstant::now|malformed|nanoseconds out of range", format!("[{mode}] now() = {tn:?}")));
-        } else if tn < t0 {
-            f.push(Failure::new("MonotonicInstant::now|outside-bracket|earlier than the preceding clock_gettime syscall", format!("[{mode}] syscall {t0:?}, now() {tn:?}, syscall {t1:?}")));
-        } else if tn > t1 {
-            f.push(Failure::new("MonotonicInstant::now|outside-bracket|later than the following clock_gettime syscall", format!("[{mode}] syscall {t0:?}, now() {tn:?}, syscall {t1:?}")));
+        // clocks: (sec, nsec) of syscall, library reading, syscall - three times
+        for (k, (what, clock)) in [("MonotonicInstant::now", "CLOCK_MONOTONIC"), ("Instant::now", "CLOCK_MONOTONIC"), ("SystemTime::now", "CLOCK_REALTIME")].iter().enumerate() {
+            let t = |i: usize| (e.clock[6 * k + 2 * i], e.clock[6 * k + 2 * i + 1]);
+            let (t0, tn, t1) = (t(0), t(1), t(2));
+            if !(0..1_000_000_000).contains(&tn.1) {
+                f.push(Failure::new(format!("{what}|malformed|nanoseconds out of range"), format!("[{mode}] now() = {tn:?}")));
+            } else if tn < t0 {
+                f.push(Failure::new(format!("{what}|outside-bracket|earlier than the preceding clock_gettime syscall"), format!("[{mode}] clock_gettime({clock}) {t0:?}, now() {tn:?}, clock_gettime({clock}) {t1:?}{tns}")));
+            } else if tn > t1 {
+                f.push(Failure::new(format!("{what}|outside-bracket|later than the following clock_gettime syscall"), format!("[{mode}] clock_gettime({clock}) {t0:?}, now() {tn:?}, clock_gettime({clock}) {t1:?}{tns}")));
+            }
         }
     }
     // lookups
@@ -587,12 +592,15 @@ pub fn run_case(env: &Env, c: &Case, scope: Scope) -> CaseResult {
             }
             rep.class("relocation-slots-inspected");
         }
-        let mut launched = launch::run(&path, &argv, &envp, &stdin, Duration::from_secs(20), set_ids, if set_ids.is_some() { c.egid } else { None });
-        if launched.is_err() && set_ids.is_some() {
+        let mut timens = if env.timens { c.timens } else { None };
+        let mut launched = launch::run(&path, &argv, &envp, &stdin, Duration::from_secs(20), set_ids, if set_ids.is_some() { c.egid } else { None }, timens);
+        if launched.is_err() && (set_ids.is_some() || timens.is_some()) {
             // e.g. an id that is not mapped in this user namespace: run it with the inherited ids instead
-            launched = launch::run(&path, &argv, &envp, &stdin, Duration::from_secs(20), None, None);
+            launched = launch::run(&path, &argv, &envp, &stdin, Duration::from_secs(20), None, None, None);
             run_ids = own;
+            timens = None;
         }
+        rep.class_if(timens.is_some(), "runs-in-a-time-namespace-with-shifted-clocks");
         let o = match launched {
             Ok(o) => o,
             Err(launch::LaunchError::Spawn(errno, what)) => {
@@ -627,7 +635,7 @@ pub fn run_case(env: &Env, c: &Case, scope: Scope) -> CaseResult {
             }
         }
         match parse(&o.stdout) {
-            Ok(e) => fails.extend(judge(&argv, &envp, &keys, &path, mode, &e, scope, run_ids, relocs)),
+            Ok(e) => fails.extend(judge(&argv, &envp, &keys, &path, mode, &e, scope, run_ids, relocs, timens)),
             Err(why) => fails.push(Failure::new(format!("probe-env|malformed output|{mode}"), format!("[{mode}] exit 0 but {why}"))),
         }
     }
@@ -708,14 +716,18 @@ pub fn run(ctx: &Ctx) {
     );
     // changing the probe's ids needs root and a probe that other users may execute: try once
     let is_root = unsafe { libc::geteuid() } == 0
-        && matches!(launch::run(&probe_path(&root, 3), &[b"probe-env".to_vec()], &[], &[], Duration::from_secs(20), Some((4242, 2424)), Some(777)), Ok(o) if o.exit == Some(0));
+        && matches!(launch::run(&probe_path(&root, 3), &[b"probe-env".to_vec()], &[], &[], Duration::from_secs(20), Some((4242, 2424)), Some(777), None), Ok(o) if o.exit == Some(0));
     ctx.extra("probe_ids", serde_json::json!(if is_root { "driver is root: 3 cases in 4 run the probe under generated uid/gid (fork+setgid+setuid+execve)" } else { "driver ids inherited (posix_spawn only)" }));
 
+    // a time namespace needs CAP_SYS_ADMIN and a kernel that switches it at execve: try once
+    let can_timens = matches!(launch::run(&probe_path(&root, 3), &[b"probe-env".to_vec()], &[], &[], Duration::from_secs(20), None, None, Some((1000, 5000))), Ok(o) if o.exit == Some(0));
+    ctx.extra("probe_time_namespace", serde_json::json!(if can_timens { "available: about 1 case in 3 of the startup sub-check runs the probe with CLOCK_MONOTONIC and CLOCK_BOOTTIME shifted by two different generated amounts" } else { "not available to the driver (clock brackets only in the initial time namespace, where monotonic and boottime may coincide)" }));
+
     // focused lookups first: what they report, the full sub-check does not report again
-    let env = Env { ctx, probe_dir: root.clone(), root: is_root, relocs: relocs.clone(), have, target: RefCell::new(None) };
+    let env = Env { ctx, probe_dir: root.clone(), root: is_root, timens: can_timens, relocs: relocs.clone(), have, target: RefCell::new(None) };
     ctx.run_prop_opts("lookup-var", ctx.cases(150, 3000), 600, lookup_case(thorough), |c: &Case| run_case(&env, c, Scope::Var));
-    let env = Env { ctx, probe_dir: root.clone(), root: is_root, relocs: relocs.clone(), have, target: RefCell::new(None) };
+    let env = Env { ctx, probe_dir: root.clone(), root: is_root, timens: can_timens, relocs: relocs.clone(), have, target: RefCell::new(None) };
     ctx.run_prop_opts("lookup-var-unix", ctx.cases(150, 3000), 600, lookup_case(thorough), |c: &Case| run_case(&env, c, Scope::VarUnix));
-    let env = Env { ctx, probe_dir: root, root: is_root, relocs: relocs.clone(), have, target: RefCell::new(None) };
+    let env = Env { ctx, probe_dir: root, root: is_root, timens: can_timens, relocs: relocs.clone(), have, target: RefCell::new(None) };
     ctx.run_prop_opts("startup", ctx.cases(1200, 20_000), 1500, startup_case(thorough), |c: &Case| run_case(&env, c, Scope::All));
 }
